@@ -1,8 +1,9 @@
 (* Model of HMAC_XXX_Init / Update / Final / Buf, which are the same text in sha256.c, sha1.c and
-   md5.c up to the hash they call: generic in the hash context functions.  For SHA-256 the inner
-   Final is SHA256_Final_internal (leaves the contexts dirty) and HMAC_SHA256_Final wipes the whole
-   HMAC context afterwards (h_wipe = zero); for SHA-1 / MD5 the inner Final is XXX_Final, which
-   wipes each half itself, and nothing more is done (h_wipe = identity).  Definitions only. *)
+   md5.c up to the hash they call: generic in the hash context functions.  [h_final] is the inner
+   Final as the C calls it (SHA256_Final_internal, SHA1_Final, MD5_Final, each with whatever it does
+   to its own context); [h_wipe_i] / [h_wipe_o] are what the statements of HMAC_XXX_Final itself do
+   to the two halves afterwards.  Neither is fixed here: HashRepo.v derives them from the statement
+   lists regenerated from the C (Alg/HashWipe.v).  Definitions only. *)
 From Coq Require Import Arith NArith List.
 From LCP Require Import Alg.Words.
 Import ListNotations.
@@ -20,7 +21,7 @@ Section HmacModel.
   Variable h_init : ctxT.
   Variable h_update : ctxT -> list N -> ctxT.
   Variable h_final : ctxT -> list N * ctxT.
-  Variable h_wipe : ctxT -> ctxT.
+  Variables h_wipe_i h_wipe_o : ctxT -> ctxT.     (* what HMAC_XXX_Final's own statements do to ictx / octx *)
   Variables hblk klen ipad opad ihash_len : N.     (* 64, digest length, 0x36, 0x5c, digest length *)
 
   Record hmac_ctx : Type := mkhmac { hm_ictx : ctxT; hm_octx : ctxT }.
@@ -49,7 +50,7 @@ Section HmacModel.
 
   Definition hmac_final (c : hmac_ctx) : list N * hmac_ctx :=
     let '(dg, c') := hmac_final_internal c in
-    (dg, mkhmac (h_wipe (hm_ictx c')) (h_wipe (hm_octx c'))).
+    (dg, mkhmac (h_wipe_i (hm_ictx c')) (h_wipe_o (hm_octx c'))).
 
   Definition hmac_buf (K m : list N) : list N :=
     fst (hmac_final_internal (hmac_update (hmac_init K) m)).
